@@ -6,6 +6,9 @@ from . import cfg as cfgm, cpp2ir, f77, ir, sccp, tv, tvrun
 from .project import AnalysisBroken
 
 F_EMASS = None
+# reference COMMON blocks that only serve the stand-alone program's file output / run bookkeeping, which the
+# port documents as not ported ("The code for output ASCII file has not been ported in C++")
+NOT_PORTED_COMMONS = ('genbbpar', 'currentev', 'slate', 'artificial')
 
 
 def _emass(units):
@@ -23,6 +26,7 @@ class Dispatch:
         self.u = units['genbbsub']
         self.fn = prog.fn('bxdecay0::genbbsub')
         self.emass = _emass(units)
+        self.port_names = set(tvrun.cpp_candidates(prog))
         self._build()
 
     def _build(self):
@@ -39,6 +43,8 @@ class Dispatch:
         self.cparams = [self.sc.var(p['name'])[1] for p in fn['params']
                         if p['ty'] not in cpp2ir.CTX_TYPES and p['name'] != '']
         self.finputs = set(self.fparams) | {self.sf.var(v)[1] for v in common} | {s.lower() for s in u.saves}
+        notported = {self.sf.var(v)[1] for b in NOT_PORTED_COMMONS for v in u.commons.get(b, [])}
+        self.fcommon = {self.sf.var(v)[1] for v in common} - notported
         consts = {'$emass': self.emass}
         self.evf = sccp.Evaluator('f', consts)
         self.evc = sccp.Evaluator('c', consts)
@@ -53,13 +59,74 @@ class Dispatch:
         return sccp.specialise(g, e0, ev, lambda callee, pos: tv._maywrite(lang, callee, pos))
 
 
-# reference COMMON blocks that only serve the stand-alone program's file output / run bookkeeping, which the
-# port documents as not ported ("The code for output ASCII file has not been ported in C++")
-NOT_PORTED_COMMONS = ('genbbpar', 'currentev', 'slate', 'artificial')
+
+
+def _effect_free(u):
+    from .tvcheck import is_effect_free
+    return is_effect_free(u)
+
+
+def _fclob(D):
+    """reference: a called unit may change any COMMON variable"""
+    units = D.units
+    return lambda callee: D.fcommon if callee in units else ()
+
+
+def _cclob(D):
+    """port: decay0_bb receives the parameter struct"""
+    return lambda callee: D.sc.fld_vars if callee == 'bb' else ()
 
 
 def _cenv(env):
     return {k: (('str', v) if isinstance(v, str) else ('num', Fraction(v))) for k, v in env.items()}
+
+
+COUNT = ('var', '$nparticles')
+FIRST_ALPHA = ('op', 'first_is_alpha')
+
+
+def _chain_idioms(g, lang, record):
+    """daughter chaining: `npfull0 = npfull ... ptime(npfull0+1) = ptime(npfull0+1) + tdnuc1` (reference, incremental
+    times) and `npfull0 = size(); ... shift_particles_time(tdnuc1, npfull0)` (port, absolute times: documented
+    admissible difference) both become  call shift(t, npfull0);  `npgeant(1).ne.47` = `!front().is_alpha()`"""
+    one = ('num', Fraction(1))
+    for n in g.nodes:
+        if n.stmt is None:
+            continue
+        if lang == 'f':
+            if n.kind == 'assign' and n.stmt[2] == ('var', 'npfull'):
+                n.stmt = ('assign', n.stmt[1], COUNT, n.stmt[3])
+            elif n.kind == 'assign' and n.stmt[1][0] == 'idx' and n.stmt[1][1] == 'ptime':
+                tgt = n.stmt[1]
+                r = n.stmt[2]
+                if r[0] == 'op' and r[1] == '+' and len(r) == 4 and tgt in r[2:]:
+                    t = r[3] if r[2] == tgt else r[2]
+                    idx = tgt[2]
+                    if idx[0] == 'op' and idx[1] == '+' and one in idx[2:] and len(idx) == 4:
+                        base = idx[3] if idx[2] == one else idx[2]
+                        n.kind = 'call'
+                        n.stmt = ('call', 'shift', (t, base), n.stmt[3])
+                        record.append(('absolute-times', n.line, 'ptime(n0+1) += t  ==  shift_particles_time(t, n0)'))
+            if n.kind == 'branch':
+                def f(x):
+                    if x[0] == 'op' and x[1] in ('!=', '==') and len(x) == 4 and ('num', Fraction(47)) in x[2:] and \
+                            ('idx', 'npgeant', one) in x[2:]:
+                        return FIRST_ALPHA if x[1] == '==' else ('op', 'not', FIRST_ALPHA)
+                    return x
+                n.stmt = ('branch', ir.map_expr(f, n.stmt[1]), n.stmt[2])
+        else:
+            def g2(x):
+                if x[0] == 'call' and x[1] == 'size' and len(x) == 3 and x[2][0] == 'call' \
+                        and x[2][1] == 'event::get_particles':
+                    return COUNT
+                if x[0] == 'call' and x[1] == 'particle::is_alpha' and len(x) == 3 and x[2][0] == 'call' \
+                        and x[2][1] == 'front':
+                    return FIRST_ALPHA
+                return x
+            if n.kind in ('assign', 'branch', 'call', 'eval', 'return'):
+                tv._rewrite_node(n, lambda e: ir.map_expr(g2, e))
+            if n.kind == 'call' and n.stmt[1] == 'event::shift_particles_time' and len(n.stmt[2]) == 3:
+                n.stmt = ('call', 'shift', n.stmt[2][1:], n.stmt[3])
 
 
 def prepare(D, env):
@@ -68,8 +135,12 @@ def prepare(D, env):
     record = []
     envf = dict(env)
     envf.setdefault('iwrfile', 0)
-    gf = sccp.specialise(D.gf0, _cenv(envf), D.evf, lambda c, p: tv._maywrite('f', c, p), nofold_calls=('bb',))
-    gc = sccp.specialise(D.gc0, _cenv(env), D.evc, lambda c, p: tv._maywrite('c', c, p), nofold_calls=('bb',))
+    envf['chnuclide'] = env['chnuclide'].split('+')[0]      # the reference knows the nuclide, not its daughters
+    envf.setdefault('chfile', 'no file')                    # state left by the initialisation call (no file output)
+    gf = sccp.specialise(D.gf0, _cenv(envf), D.evf, lambda c, p: tv._maywrite('f', c, p), nofold_calls=('bb',),
+                         clobber=_fclob(D))
+    gc = sccp.specialise(D.gc0, _cenv(env), D.evc, lambda c, p: tv._maywrite('c', c, p), nofold_calls=('bb',),
+                         clobber=_cclob(D))
     u = D.u
     bbu = D.units['bb']
     bbp = [p.lower() for p in bbu.params]
@@ -97,6 +168,13 @@ def prepare(D, env):
                 c.succ = succ
             else:
                 n.stmt = call
+    for n in gf.nodes:
+        if n.kind == 'call' and n.stmt[1] in D.units and n.stmt[1] not in D.port_names \
+                and _effect_free(D.units[n.stmt[1]]):
+            record.append(('effect-free-unit', n.line, 'call %s(...) does nothing in the reference' % n.stmt[1]))
+            n.kind = 'nop'
+    _chain_idioms(gf, 'f', record)
+    _chain_idioms(gc, 'c', record)
     for n in gf.nodes:
         if n.kind == 'assign' and n.stmt[1] == ('var', 'npfull') and n.stmt[2] == ('num', Fraction(0)):
             n.kind = 'nop'
@@ -135,8 +213,10 @@ def compare_point(D, prep, ilevel, modebb):
     """stage 2: fix (level, mode) as well; both residuals become (nearly) straight-line; compare their symbolic
     path summaries: statement-level calls in order, final values of the shared outputs"""
     env2 = _cenv({'ilevel': ilevel, 'modebb': modebb})
-    gf = sccp.specialise(prep['gf'], env2, D.evf, lambda c, p: tv._maywrite('f', c, p), nofold_calls=('bb',))
-    gc = sccp.specialise(prep['gc'], env2, D.evc, lambda c, p: tv._maywrite('c', c, p), nofold_calls=('bb',))
+    gf = sccp.specialise(prep['gf'], env2, D.evf, lambda c, p: tv._maywrite('f', c, p), nofold_calls=('bb',),
+                         clobber=_fclob(D))
+    gc = sccp.specialise(prep['gc'], env2, D.evc, lambda c, p: tv._maywrite('c', c, p), nofold_calls=('bb',),
+                         clobber=_cclob(D))
     fout, cout = prep['fout'], prep['cout']
     gf = tv.normalise_cfg(gf, fout, [], lang='f')
     gc = tv.normalise_cfg(gc, cout, [], lang='c')
@@ -186,6 +266,13 @@ def compare(D, env, record=None):
                 n.stmt = call
     # event bookkeeping: the caller resets the event in the port (npfull=0 has no counterpart); the reference
     # time `tevst` is forced to 0 in the port (documented admissible difference)
+    for n in gf.nodes:
+        if n.kind == 'call' and n.stmt[1] in D.units and n.stmt[1] not in D.port_names \
+                and _effect_free(D.units[n.stmt[1]]):
+            record.append(('effect-free-unit', n.line, 'call %s(...) does nothing in the reference' % n.stmt[1]))
+            n.kind = 'nop'
+    _chain_idioms(gf, 'f', record)
+    _chain_idioms(gc, 'c', record)
     for n in gf.nodes:
         if n.kind == 'assign' and n.stmt[1] == ('var', 'npfull') and n.stmt[2] == ('num', Fraction(0)):
             n.kind = 'nop'
@@ -276,7 +363,7 @@ def grid(D, dbd_names, bkg_names, levels, modes, procs=16):
         jobs.append((1, nm, -1, levels, modes))
         jobs.append((1, nm, 1, [0], [1]))
     for nm in bkg_names:
-        jobs.append((2, nm, -1, [0], sorted(set(modes) & {0, 1, 4, 20, 21})))
+        jobs.append((2, nm, -1, [0], [1]))     # the generator passes mode 1 for background requests
         jobs.append((2, nm, 1, [0], [1]))
     import multiprocessing as mp
     ctx = mp.get_context('fork')
